@@ -67,6 +67,17 @@ Global Arguments floor_unpack : simpl never.
 Global Arguments ept_map_pack : simpl never.
 Global Arguments ept_map_result_pack : simpl never.
 Global Arguments for_range : simpl never.
+Global Arguments data_rep_ranges : simpl never.
+Global Arguments pdu_header_ranges : simpl never.
+Global Arguments sec_trailer_ranges : simpl never.
+Global Arguments syntax_id_ranges : simpl never.
+Global Arguments context_element_ranges : simpl never.
+Global Arguments context_result_ranges : simpl never.
+Global Arguments command_generic_ranges : simpl never.
+Global Arguments command_ranges : simpl never.
+Global Arguments floor_generic_ranges : simpl never.
+Global Arguments floor_ranges : simpl never.
+Global Arguments tower_ranges : simpl never.
 Global Arguments k_datarep_first_octet : simpl never.
 Global Arguments k_pdu_has_trailer : simpl never.
 Global Arguments k_req_obj_mask : simpl never.
@@ -91,8 +102,6 @@ Lemma to_bytes_be_eq w z : to_bytes_be w z = if in_range w z then Ok (be w z) el
 Proof. reflexivity. Qed.
 
 (* x.to_bytes(..) raises OverflowError outside the field width: pack ties are stated with the exact range condition *)
-(* `if self.entry_handle: self.entry_handle[0].to_bytes(4, ..)` *)
-Definition handle_ok (h : option (Z * bytes)) : bool := match h with Some (a, _) => in_range 4 a | None => true end.
 Definition chk (b : bool) (x : bytes) : res (pv obj) := if b then Ok (VB x) else Raise OverflowError.
 
 Lemma len_map {A B} (f : A -> B) l : len (map f l) = len l.
@@ -272,6 +281,7 @@ Ltac dbind :=
     | while_loop _ _ _ _ _ _ => fail
     | to_bytes_le _ _ => fail
     | to_bytes_be _ _ => fail
+    | ovf _ _ => fail
     | _ => idtac
     end; first [known t | destruct t eqn:?]
   end.
@@ -285,17 +295,34 @@ Ltac dif :=
     | _ => idtac
     end; first [known t | destruct t eqn:?]
   end.
+Ltac dand :=
+  match goal with
+  | |- context [if ?c then _ else _] =>
+    match c with
+    | context [andb ?a _] =>
+      lazymatch a with
+      | context [andb _ _] => fail
+      | context [if _ then _ else _] => fail
+      | context [match _ with _ => _ end] => fail
+      | true => fail
+      | false => fail
+      | _ => idtac
+      end; first [known a | destruct a eqn:?]
+    end
+  end.
 Ltac nats := change (Pos.to_nat 1) with 1%nat in *; change (Pos.to_nat 2) with 2%nat in *;
              change (Pos.to_nat 4) with 4%nat in *; change (Pos.to_nat 8) with 8%nat in *;
              change (Pos.to_nat 16) with 16%nat in *; change (Pos.to_nat 20) with 20%nat in *.
 Ltac lk := repeat match goal with H : lookup ?x ?e = _ |- context [lookup ?x ?e] => rewrite H; cbn end.
 Ltac dpairs := repeat match goal with p : (_ * _)%type |- _ => destruct p end.
+Ltac norm1 :=
+  first [ progress unfold lift_fst | progress unfold ovf | progress unfold test | progress lk
+        | progress rewrite ?len_map, ?len_nil, ?index_0, ?index_1, ?join_bytes_nil, ?repeat_list_0, ?zs_eqb_bytes_eqb, ?len_2 ].
 Ltac tie1 :=
   try match goal with |- _ <> OutOfFuel -> _ => intro end;
-  dpairs; cbn; try unfold lift_fst; try (progress unfold test; cbn); lk; nats;
-  repeat (progress rewrite ?len_map, ?len_nil, ?index_0, ?index_1, ?join_bytes_nil, ?repeat_list_0, ?zs_eqb_bytes_eqb, ?len_2; cbn);
+  dpairs; cbn; repeat (norm1; cbn); nats;
   rewrite ?to_bytes_le_eq, ?to_bytes_be_eq, ?app_nil_r, <- ?app_assoc; try reflexivity.
-Ltac tie := repeat (tie1; first [dbind | dif]); tie1.
+Ltac tie := repeat (tie1; first [dbind | dif | dand]); tie1.
 
 (* ---- `for x in range(n)` against Model/RpcLoop.for_range ---------------------------------------- *)
 Lemma zrange_S n lo : @zrange obj (S n) lo = VI lo :: zrange n (lo + 1).
@@ -339,28 +366,29 @@ Qed.
 
 (* ---- b"".join([x.pack() for x in xs]) ------------------------------------------------------------ *)
 
-Lemma comp_pack mf {A : Type} (inj : A -> obj) (packf : A -> bytes) x :
-  (forall a, rpc_pack (inj a) = Some (Ok (packf a))) ->
+Lemma comp_pack mf {A : Type} (inj : A -> obj) (rg : A -> bool) (packf : A -> bytes) x :
+  (forall a, rpc_pack (inj a) = Some (ovf (rg a) (packf a))) ->
   forall l env, comp_each (W mf) (PMeth "pack" (PName x) []) [x] [] (map (fun a => VO (inj a)) l) env
-                = Ok (map (fun a => VB (packf a)) l).
+                = if forallb rg l then Ok (map (fun a => VB (packf a)) l) else Raise OverflowError.
 Proof.
   intros Hp. induction l as [|a r IH]; intros env; [reflexivity|].
-  cbn [map]. rewrite comp_each_cons. cbn [bind_targets bind]. cbn [eval]. cbn [lookup update]. rewrite String.eqb_refl.
-  cbn. rewrite Hp. cbn. rewrite String.eqb_refl. rewrite IH. reflexivity.
+  cbn [map forallb]. rewrite comp_each_cons. cbn [bind_targets bind]. cbn [eval]. cbn [lookup update]. rewrite String.eqb_refl.
+  cbn. rewrite Hp. unfold ovf. destruct (rg a); cbn; [|reflexivity]. rewrite String.eqb_refl. rewrite IH.
+  destruct (forallb rg r); reflexivity.
 Qed.
 
-Lemma eval_join_comp_pack mf {A : Type} (inj : A -> obj) (packf : A -> bytes) x it env (l : list A) :
-  (forall a, rpc_pack (inj a) = Some (Ok (packf a))) ->
+Lemma eval_join_comp_pack mf {A : Type} (inj : A -> obj) (rg : A -> bool) (packf : A -> bytes) x it env (l : list A) :
+  (forall a, rpc_pack (inj a) = Some (ovf (rg a) (packf a))) ->
   eval (W mf) env it = Ok (VL (map (fun a => VO (inj a)) l), env) ->
   eval (W mf) env (PMeth "join" (PBytes []) [PComp (PMeth "pack" (PName x) []) [x] it []])
-  = Ok (VB (concat (map packf l)), env).
+  = if forallb rg l then Ok (VB (concat (map packf l)), env) else Raise OverflowError.
 Proof.
   intros Hp Hit.
   change (eval (W mf) env (PMeth "join" (PBytes []) [PComp (PMeth "pack" (PName x) []) [x] it []]))
     with (let* (vs, env2) := (let* (v, env1) := eval (W mf) env (PComp (PMeth "pack" (PName x) []) [x] it []) in Ok ([v], env1)) in
           let* (r, rv') := w_meth (W mf) "join" (VB []) vs in Ok (r, env2)).
   rewrite eval_comp, Hit. cbn [bind]. cbn [w_iter W std_world v_iter]. cbn [bind].
-  rewrite (comp_pack mf inj packf x Hp). cbn [bind w_list W std_world].
+  rewrite (comp_pack mf inj rg packf x Hp). destruct (forallb rg l); [|reflexivity]. cbn [bind w_list W std_world].
   cbn. rewrite <- map_map, join_bytes_nil. reflexivity.
 Qed.
 
@@ -370,10 +398,10 @@ Ltac hide_comps :=
   | |- context [PMeth "join" (PBytes []) [?c]] =>
     lazymatch c with PComp _ _ _ _ => let jc := fresh "jc" in remember (PMeth "join" (PBytes []) [c]) as jc end
   end.
-Ltac comp_step inj packf :=
+Ltac comp_step inj rg packf :=
   match goal with
   | H : ?jc = PMeth "join" _ _ |- context [eval _ _ ?jc] =>
-    rewrite H; erewrite (eval_join_comp_pack _ inj packf) by (first [intro; reflexivity | cbn; reflexivity])
+    rewrite H; erewrite (eval_join_comp_pack _ inj rg packf) by (first [intro; reflexivity | cbn; reflexivity])
   end.
 
 (* after `rewrite exec_for; cbn`: instantiate for_range_tie with the invariant R for the loop in the goal; leaves HL *)
